@@ -14,9 +14,12 @@ static int kind, nth;
 static struct {
   int n, op[MAXOPS];
 } prog[MAXTH];
-static mpmc_lifo_t lifo;
-static dist_fifo_t __attribute__((aligned(64))) dfifo;
-static mpmc_stack_t stk;
+static mpmc_lifo_t* lifo_p; /* heap memory with arbitrary previous contents */
+static dist_fifo_t* dfifo_p;
+static mpmc_stack_t* stk_p;
+#define lifo (*lifo_p)
+#define dfifo (*dfifo_p)
+#define stk (*stk_p)
 static long pushed_vals[96], popped_vals[96];
 static int npushed, npopped;
 static int retries;
@@ -31,12 +34,18 @@ static NS mpsc_fifo_node_t* node_get(void) {
   if (pool_n) return pool_free[--pool_n];
   return calloc(1, sizeof(mpsc_fifo_node_t));
 }
-static NS void node_put(mpsc_fifo_node_t* n) { pool_free[pool_n++] = n; }
+static NS void node_put(mpsc_fifo_node_t* n) {
+  sim_tso_sync(); /* the node changes hands outside the structure */
+  pool_free[pool_n++] = n;
+}
 static NS mpmc_stack_node_t* snode_get(void) {
   if (spool_n) return spool_free[--spool_n];
   return calloc(1, sizeof(mpmc_stack_node_t));
 }
-static NS void snode_put(mpmc_stack_node_t* n) { spool_free[spool_n++] = n; }
+static NS void snode_put(mpmc_stack_node_t* n) {
+  sim_tso_sync();
+  spool_free[spool_n++] = n;
+}
 static NS int g_inv(int t, int op, long arg) { return hist_invoke(t, op, arg); }
 static NS void g_ret(int idx, long res) {
   hist_return(idx, res);
@@ -151,6 +160,17 @@ void h_run(void) {
   sim_describe("%s threads=%d ops=%d preempt=1/%d", kn[kind], nth, total, c.preempt_inv);
   if (total >= 3) sim_nontrivial();
   hist_reset(kind == D_LIFO ? M_LIFO : kind == D_DIST ? M_FIFO : M_STACK_FLUSH, 0);
+  posix_memalign((void**)&lifo_p, 64, sizeof *lifo_p);
+  posix_memalign((void**)&dfifo_p, 64, sizeof *dfifo_p);
+  posix_memalign((void**)&stk_p, 64, sizeof *stk_p);
+  {
+    static const unsigned char pat[] = {0x00, 0xA5, 0xFF, 0x01, 0x7F};
+    const int k = wl_pick(5);
+    memset(lifo_p, pat[k], sizeof *lifo_p);
+    memset(dfifo_p, pat[k], sizeof *dfifo_p);
+    memset(stk_p, pat[k], sizeof *stk_p);
+  }
+  if (wl_pct(40)) sim_tso_enable_plain();
   if (kind == D_LIFO) mpmc_lifo_init(&lifo);
   else if (kind == D_DIST) dist_fifo_init(&dfifo);
   else mpmc_stack_init(&stk);
